@@ -37,6 +37,50 @@ pub fn note(s: String) {
 pub fn take_notes() -> Vec<String> {
     NOTES.with(|d| std::mem::take(&mut *d.borrow_mut()))
 }
+/// Every handle of a `reserve_entities` iterator, taken in one of several equivalent ways (plain iteration, `step_by(1)`,
+/// repeated `nth(0)`, `skip(0)`, `last` after a partial read): iterator adaptors go through overridable methods of
+/// the iterator. Capped: a method that does not consume what it returns would otherwise never end.
+pub fn drain_reserved<I: Iterator<Item = hecs::Entity> + ExactSizeIterator>(mut it: I, n: usize) -> Vec<hecs::Entity> {
+    static MODE: std::sync::atomic::AtomicUsize = std::sync::atomic::AtomicUsize::new(0);
+    let mode = MODE.fetch_add(1, std::sync::atomic::Ordering::Relaxed) % 5;
+    if it.len() != n {
+        note(format!("C07: reserve_entities({n}) announces {} handles", it.len()));
+    }
+    let v: Vec<hecs::Entity> = match mode {
+        0 => it.collect(),
+        1 => it.step_by(1).take(n + 2).collect(),
+        2 => {
+            let mut v = Vec::new();
+            while let Some(h) = it.nth(0) {
+                v.push(h);
+                if v.len() > n + 1 {
+                    break;
+                }
+            }
+            v
+        }
+        3 => it.skip(0).take(n + 2).collect(),
+        _ => {
+            // all but the last one by one, the last through `last()`
+            let mut v = Vec::new();
+            while v.len() + 1 < n {
+                match it.next() {
+                    Some(h) => v.push(h),
+                    None => break,
+                }
+            }
+            if it.len() > 1 {
+                note(format!("C07: {} handles left where at most one should be", it.len()));
+            }
+            v.extend(it.last());
+            v
+        }
+    };
+    if v.len() != n {
+        note(format!("C07: reserve_entities({n}) yielded {} handles (mode {mode})", v.len()));
+    }
+    v
+}
 pub fn take_misaligned() -> Vec<(u64, u64)> {
     MISALIGNED.with(|d| std::mem::take(&mut *d.borrow_mut()))
 }
